@@ -281,7 +281,8 @@ impl UnixStr {
             return None;
         }
         let this_buf = &self.0;
-        let other_buf = &other.0[..other.0.len() - 2];
+        // The needle is `other` without its null terminator
+        let other_buf = &other.0[..other.0.len() - 1];
         buf_find(this_buf, other_buf)
     }
 
@@ -513,8 +514,12 @@ impl UnixStr {
 #[inline]
 #[expect(clippy::needless_range_loop)]
 fn buf_find(this_buf: &[u8], other_buf: &[u8]) -> Option<usize> {
+    // An empty needle is found at the start
+    let Some(first) = other_buf.first() else {
+        return Some(0);
+    };
     for i in 0..this_buf.len() {
-        if this_buf[i] == other_buf[0] {
+        if this_buf[i] == *first {
             let mut no_match = false;
             for j in 1..other_buf.len() {
                 if let Some(this) = this_buf.get(i + j) {
